@@ -132,6 +132,10 @@ def run(ctx, only_solver=False):
 
     _solver_rules(ctx, p, I, F)
 
+    # a term built by name, by index or by stepping must be THE term k of that year (year/index arithmetic and the cursory-day seed; series stubbed)
+    from rules import c06 as _c06
+    _c06.term_ctor_rules(ctx)
+
     ctx.not_decided.append('every accuracy clause of the statement: longitudes at the reported instants, agreement with an independent theory, sub-arcsecond residuals, day agreement from 1961 on (all series values)')
     ctx.assumptions.append('series functions are evaluated only for their index behaviour / at the knots of their own literal tables; no series value enters a verdict')
     return ('structural necessary conditions only: TT-UT spline continuity at its own knots, table shapes and loop index bounds, fit-table monotonicity, correction-string alphabet and coverage, '
@@ -179,6 +183,7 @@ def _solver_rules(ctx, p, I, F):
     def guard(fnname, fast, precise, window):
         def f():
             marks = []
+            dargs = []
             third = py(I.static('ONE_THIRD', F)) if 'ONE_THIRD' in p.static_defs else 1.0 / 3.0
             state = {}
 
@@ -190,14 +195,22 @@ def _solver_rules(ctx, p, I, F):
                 return state['t'] / 36525.0
             I.overrides['ShouXingUtil::' + fast] = fast_stub
             I.overrides['ShouXingUtil::' + precise] = precise_stub
-            I.overrides['ShouXingUtil::dtt'] = lambda I_, r, a: 0.0
+            def dtt_stub(I_, r, a):
+                dargs.append(float(a[0]))
+                return 0.0
+            I.overrides['ShouXingUtil::dtt'] = dtt_stub
             try:
                 for day in (0, 7300, -36000):
                     for sec in (1, 60, 300, 86400 - 300, 86400 - 60, 86400 - 1):
                         # result t' = t + 1/3 ; civil seconds = frac(t' + 0.5) * 86400
                         state['t'] = day - 0.5 + sec / 86400.0 - third
                         del marks[:]
+                        del dargs[:]
                         I.call('ShouXingUtil::' + fnname, [0.0])
+                        # units: the solvers return Julian centuries, TT-UT is tabulated per DAY number; every dtt argument must be the day value (x 36525)
+                        off = [a_ for a_ in dargs if abs(a_ - state['t']) > 1.0]
+                        if off and day != 0:
+                            return '%s passes %.6g to dtt where the instant is day %.3f from J2000: dtt takes days, the solvers return Julian centuries (x 36525 missing on that path)' % (fnname, off[0], state['t'])
                         if not marks:
                             return '%s does not fall back to the precise solver %s for an instant %d s from civil midnight (UTC+8): a term/new moon that close to midnight may get the wrong calendar day' % (fnname, precise, min(sec, 86400 - sec))
                 return None
